@@ -35,6 +35,7 @@ DECIDED = [
     "C10.12 manual tools: every run flag replacing should_run keeps the retry rule (`not finished or should_rerun`)",
     "C10.11 shared_results = own + every bridged node's results (the retry counter and identifiers are derived from its length)",
     "C10.1i the in-flight placeholder is not held against rerun_status; C10.4n/4s verdict grouping key and summary (known findings F35/F36); C10.5b replay try budget (known finding F37)",
+    'C10.4z a job result entry is rewritten to an acceptable status only where the status read is acceptable already',
 ]
 NOT_DECIDED = ["execution sequences over outcome sequences and schedules", "stale results when two runs legitimately share (name, uid)"]
 MIN_INSTANCES = 18
